@@ -137,14 +137,20 @@ Definition corr_C07 := corr_by is_c07 false.
 Definition spec_C07 (c : list file_result * list file_result) : bool :=
   for_files (fun a a' ds0 ds =>
     let dd := filter (is_c07 a') ds in
-    let args := flat_map (fun m => map (fun x => (m, x)) (m_args m)) (methods_of (ai_item a')) in
+    (* "oneway method (explicit or inherited from a oneway interface)": read off the parse-stage tree, not off what
+       validation returned *)
+    let iow := match ai_item a with ItInterface i => i_oneway i | _ => false end in
+    let src_ms := methods_of (ai_item a) in
+    let ms := methods_of (ai_item a') in
+    let args := flat_map (fun '(m0, m) => map (fun x => (iow || m_oneway m0, x)) (m_args m)) (combine src_ms ms) in
+    Nat.eqb (length src_ms) (length ms) &&
     forallb (fun d => dkind_eqb (d_kind d) DError && is_empty (d_related d)) dd &&
-    forallb (fun '(m, x) =>
+    forallb (fun '(ow, x) =>
                Nat.eqb (length (filter (fun d => range_eqb (d_range d) (where_ x)) dd))
-                       (expected_dir_errors (cat (ty_kind (a_ty x))) (dir_of (a_dir x)) (m_oneway m))) args &&
+                       (expected_dir_errors (cat (ty_kind (a_ty x))) (dir_of (a_dir x)) ow)) args &&
     Nat.eqb (length dd)
             (fold_right Nat.add 0%nat
-               (map (fun '(m, x) => expected_dir_errors (cat (ty_kind (a_ty x))) (dir_of (a_dir x)) (m_oneway m)) args))) c.
+               (map (fun '(ow, x) => expected_dir_errors (cat (ty_kind (a_ty x))) (dir_of (a_dir x)) ow) args))) c.
 
 (* C08 *)
 Definition is_c08 (a : aidl) :=
